@@ -552,6 +552,7 @@ class SimBus:
         self.datagram_hook = None     # callable(frame_no, dgram, data) -> None/fault
         self.wkc_fault = None         # callable(frame_no, dgram, wkc) -> wkc
         self._ring_results = {}
+        self.route_by_data0 = False   # stand-in for the dispatcher's ethertype rewrite
 
     def add_terminal(self, term):
         self.terminals.append(term)
@@ -661,6 +662,10 @@ class SimBus:
             if action != 2:          # DROP / ABORTED / anything else
                 return
             frame = bytes(pkt)
+        elif self.route_by_data0 and len(frame) >= 28 and frame[12:14] == b"\x88\xa4" \
+                and frame[16] == 0:
+            # what EtherXDP does for frames it hands to user space
+            frame = frame[:12] + frame[27:28] + frame[26:27] + frame[14:]
         self.deliver_to_sockets(no, frame)
 
     def deliver_to_sockets(self, no, frame):
